@@ -12,7 +12,10 @@
 (*   CRegister  self.pending_responses[msg_id] = future                     *)
 (*   CSchedule  asyncio.run_coroutine_threadsafe(...) ; .result() blocks    *)
 (* Loop thread:                                                             *)
-(*   LSend      send_message_and_get_result starts: stream_send_msg, await  *)
+(*   LSend      send_message_and_get_result starts: stream_send_msg writes  *)
+(*              the frame; writer.drain() returns at once or (blk) waits    *)
+(*   LDrained   a waiting drain() returns (the loop ran other callbacks      *)
+(*              in between, e.g. the listener saw the end of the stream)    *)
 (*   LDeliver   _listen: a complete frame -> pending_responses.pop, resolve *)
 (*   LEof       _listen raises -> _run: writer = None, cleanup begins       *)
 (*   LClean     one iteration of `for future in pending_responses.values()` *)
@@ -34,7 +37,7 @@ CONSTANTS Callers, SnapshotCleanup, RecordHist
 
 A == INSTANCE IpcCallAbs
 
-VARIABLES cpc,      \* [Callers -> "idle" | "checked" | "registered" | "scheduled" | "sent" | "done"]
+VARIABLES cpc,      \* [Callers -> "idle" | "checked" | "registered" | "scheduled" | "draining" | "sent" | "done"]
           fut,      \* [Callers -> "none" | "pending" | "value" | "exc"]   the asyncio future of the call
           val,      \* [Callers -> id carried by the resolved future]
           pend,     \* set of ids in pending_responses
@@ -88,17 +91,26 @@ CSchedule(c) ==
 \* the loop is single-threaded: while the cleanup iteration runs no other loop callback does
 LoopFree == lst # "cleaning"
 
-LSend(c) ==
+LSend(c, blk) ==
   /\ LoopFree /\ loopq # <<>> /\ Head(loopq) = c
   /\ loopq' = Tail(loopq)
   /\ IF ncw
-     THEN /\ cpc' = [cpc EXCEPT ![c] = "sent"]
-          /\ wire' = IF eof THEN wire ELSE wire \cup {c}
-          /\ Rec([a |-> "lsend", c |-> c], <<>>)
-     ELSE /\ cpc' = [cpc EXCEPT ![c] = "done"]                 \* self.writer is None: AttributeError
+     THEN /\ cpc' = [cpc EXCEPT ![c] = IF blk THEN "draining" ELSE "sent"]
+          /\ wire' = IF eof \/ blk THEN wire ELSE wire \cup {c}
+          /\ Rec([a |-> "lsend", c |-> c, blk |-> blk], <<>>)
+     ELSE /\ ~blk
+          /\ cpc' = [cpc EXCEPT ![c] = "done"]                 \* self.writer is None: AttributeError
           /\ wire' = wire
-          /\ Rec([a |-> "lsend", c |-> c], <<[ev |-> "end", c |-> c, out |-> "exc", id |-> 0]>>)
+          /\ Rec([a |-> "lsend", c |-> c, blk |-> blk], <<[ev |-> "end", c |-> c, out |-> "exc", id |-> 0]>>)
   /\ UNCHANGED <<fut, val, pend, ncw, lst, todo, size0, answered, resp, eof>>
+
+\* the transport's buffer has been flushed (large request / slow peer): the coroutine resumes after drain()
+LDrained(c) ==
+  /\ LoopFree /\ cpc[c] = "draining"
+  /\ cpc' = [cpc EXCEPT ![c] = "sent"]
+  /\ wire' = IF eof THEN wire ELSE wire \cup {c}
+  /\ Rec([a |-> "ldrained", c |-> c], <<>>)
+  /\ UNCHANGED <<fut, val, pend, loopq, ncw, lst, todo, size0, answered, resp, eof>>
 
 LDeliver ==
   /\ LoopFree /\ lst = "listening" /\ resp # <<>> /\ Head(resp).full
@@ -160,7 +172,8 @@ PCut(c, partial) ==
   /\ Rec([a |-> "pcut", c |-> c, partial |-> partial], <<>>)
   /\ UNCHANGED <<cpc, fut, val, pend, loopq, ncw, lst, todo, size0, wire>>
 
-Next == \/ \E c \in Callers : CCheck(c) \/ CRegister(c) \/ CSchedule(c) \/ LSend(c) \/ LClean(c) \/ LWake(c) \/ PRespond(c)
+Next == \/ \E c \in Callers : CCheck(c) \/ CRegister(c) \/ CSchedule(c) \/ LClean(c) \/ LWake(c) \/ PRespond(c) \/ LDrained(c)
+        \/ \E c \in Callers, blk \in BOOLEAN : LSend(c, blk)
         \/ LDeliver \/ LEof \/ LCleanEnd
         \/ \E c \in Callers, p \in BOOLEAN : PCut(c, p)
 
